@@ -5,6 +5,16 @@ use crate::util::PathList;
 
 use super::ForwardAttrs;
 
+/// The name a declared attribute path is matched by: its segments, with a leading `::` kept,
+/// exactly as the generated filter builds the name of each attribute it looks at.
+pub(in crate::codegen) fn attr_name(path: &syn::Path) -> String {
+    let mut name = crate::util::path_to_string(path);
+    if path.leading_colon.is_some() {
+        name.insert_str(0, "::");
+    }
+    name
+}
+
 /// Infrastructure for generating an attribute extractor.
 pub trait ExtractAttribute {
     /// A set of mutable declarations for all members of the implementing type.
@@ -57,7 +67,7 @@ pub trait ExtractAttribute {
         // The block for parsing attributes whose names have been claimed by the target
         // struct. If no attributes were claimed, this is a pass-through.
         let parse_handled = if will_parse_any {
-            let attr_names = self.attr_names().to_strings();
+            let attr_names = self.attr_names().iter().map(attr_name);
             let core_loop = self.core_loop();
             quote!(
                 #(#attr_names)|* => {
